@@ -95,18 +95,28 @@ pub fn install_quiet_panic_hook() {
         } else {
             "<non-string panic payload>".to_string()
         };
-        LAST_PANIC.with(|p| *p.borrow_mut() = Some(format!("{msg} @ {loc}")));
+        let _ = LAST_PANIC.try_with(|p| *p.borrow_mut() = Some(format!("{msg} @ {loc}")));
     }));
 }
 
 /// Runs `f`, returning Err(panic message with location) if it panicked.
 pub fn guarded<T>(f: impl FnOnce() -> T) -> Result<T, String> {
-    LAST_PANIC.with(|p| *p.borrow_mut() = None);
+    // try_with: this may run inside a thread-local destructor at thread exit (call-context faults)
+    let _ = LAST_PANIC.try_with(|p| *p.borrow_mut() = None);
     match catch_unwind(AssertUnwindSafe(f)) {
         Ok(v) => Ok(v),
-        Err(_) => Err(LAST_PANIC
-            .with(|p| p.borrow_mut().take())
-            .unwrap_or_else(|| "<panic>".to_string())),
+        Err(e) => {
+            let recorded = LAST_PANIC.try_with(|p| p.borrow_mut().take()).ok().flatten();
+            Err(recorded.unwrap_or_else(|| {
+                if let Some(s) = e.downcast_ref::<&str>() {
+                    (*s).to_string()
+                } else if let Some(s) = e.downcast_ref::<String>() {
+                    s.clone()
+                } else {
+                    "<panic>".to_string()
+                }
+            }))
+        }
     }
 }
 
